@@ -99,7 +99,8 @@ def run(ctx):
     # binding self-test: a key dropped from the list must be exposed
     saved = list(strutils._SANITIZE_KEYS)
     try:
-        strutils._SANITIZE_KEYS.remove('cephmonkey')
+        if 'cephmonkey' in strutils._SANITIZE_KEYS:
+            strutils._SANITIZE_KEYS.remove('cephmonkey')
         leaked = strutils.mask_password('cephmonkey=abc123') == 'cephmonkey=abc123'
     finally:
         strutils._SANITIZE_KEYS[:] = saved
